@@ -187,9 +187,12 @@ def handle (st : St) (seq : String) (f : List String) : St × List String :=
           let due := sp.wl && sp.rate != 0 && sp.has
           let start := if sp.segStart ≤ sp.settled then sp.settled else sp.segStart
           let back := decide (now < sp.clockMax)
+          -- a sweep whose payment the net fees cannot cover lowers the tracker and skips the locker: the whole units are lost
+          -- (observation recorded in notes/C13.md); the credited amount of such a call is not judged
+          let lostNow := kind = "lsr" && active cur && !(sweepFine cur ctx pw)
           let nonneg : List String := if credited < 0 && kind != "close" then ["credited_nonneg"] else []
           let (bad, mon) : List String × List String :=
-            if o != "ok" || !isAccruing kind || !cur.locker.isSome || sp.muted || back then ([], [])
+            if o != "ok" || !isAccruing kind || !cur.locker.isSome || sp.muted || back || lostNow then ([], [])
             else if !due then
               ([], if credited > 0 then ["zero_rate" ++ sfx] else nonneg)
             else match parsePow legit with
